@@ -44,22 +44,24 @@ package serializers
 //@   invariant L0: cdxStateOK(state)
 
 //@ func CDX.dependencies
+//@   props C03
 //@   inline
-//@   invariant L0: cdxStateOK(state)
-//@   invariant L1: cdxStateOK(state)
-//@   invariant L2: cdxStateOK(state)
+//@   requires [C03:pre] bom != nil && bom.NodeList != nil && sbom.validNL(bom.NodeList) && len(bom.NodeList.RootElements) >= 1
+//@   invariant L0: [ser@inlined] cdxStateOK(state)
+//@   invariant L1: [ser@inlined] cdxStateOK(state)
+//@   invariant L2: [ser@inlined] cdxStateOK(state)
 // C03: every dependsOn edge yields a dependency entry for its source
 // (the first invariant is a trigger hint: it mentions the last entry so that the solver has
 // the witness term for the existential at hand after an append)
-//@   invariant L0: [C03:inv] len(dependencies) == 0 || len(dependencies[len(dependencies) - 1].Ref) >= 0
-//@   invariant L0: [C03:inv] forall i int :: 0 <= i && i < _i && bom.NodeList.Edges[i].Type == 10 ==> (exists d int :: 0 <= d && d < len(dependencies) && dependencies[d].Ref == bom.NodeList.Edges[i].From)
-//@   invariant L1: [C03:inv] forall i int :: 0 <= i && i < _i1 && bom.NodeList.Edges[i].Type == 10 ==> (exists d int :: 0 <= d && d < len(dependencies) && dependencies[d].Ref == bom.NodeList.Edges[i].From)
-//@   invariant L2: [C03:inv] forall i int :: 0 <= i && i < _i1 && bom.NodeList.Edges[i].Type == 10 ==> (exists d int :: 0 <= d && d < len(dependencies) && dependencies[d].Ref == bom.NodeList.Edges[i].From)
+//@   invariant L0: [C03:inv@root] len(dependencies) == 0 || len(dependencies[len(dependencies) - 1].Ref) >= 0
+//@   invariant L0: [C03:inv@root] forall i int :: 0 <= i && i < _i && bom.NodeList.Edges[i].Type == 10 ==> (exists d int :: 0 <= d && d < len(dependencies) && dependencies[d].Ref == bom.NodeList.Edges[i].From)
+//@   invariant L1: [C03:inv@root] forall i int :: 0 <= i && i < _i1 && bom.NodeList.Edges[i].Type == 10 ==> (exists d int :: 0 <= d && d < len(dependencies) && dependencies[d].Ref == bom.NodeList.Edges[i].From)
+//@   invariant L2: [C03:inv@root] forall i int :: 0 <= i && i < _i1 && bom.NodeList.Edges[i].Type == 10 ==> (exists d int :: 0 <= d && d < len(dependencies) && dependencies[d].Ref == bom.NodeList.Edges[i].From)
 // C03: a node is withheld from the top-level component list (marked in addedDict)
 // only if it is the root or the target of a contains edge, i.e. nested under its parent
-//@   invariant L0: [C03:inv] (forall k string :: (k in state.addedDict) ==> k == bom.NodeList.RootElements[0] || (exists i int, j int :: 0 <= i && i < len(bom.NodeList.Edges) && bom.NodeList.Edges[i].Type == 5 && 0 <= j && j < len(bom.NodeList.Edges[i].To) && bom.NodeList.Edges[i].To[j] == k))
-//@   invariant L1: [C03:inv] (forall k string :: (k in state.addedDict) ==> k == bom.NodeList.RootElements[0] || (exists i int, j int :: 0 <= i && i < len(bom.NodeList.Edges) && bom.NodeList.Edges[i].Type == 5 && 0 <= j && j < len(bom.NodeList.Edges[i].To) && bom.NodeList.Edges[i].To[j] == k))
-//@   invariant L2: [C03:inv] (forall k string :: (k in state.addedDict) ==> k == bom.NodeList.RootElements[0] || (exists i int, j int :: 0 <= i && i < len(bom.NodeList.Edges) && bom.NodeList.Edges[i].Type == 5 && 0 <= j && j < len(bom.NodeList.Edges[i].To) && bom.NodeList.Edges[i].To[j] == k))
+//@   invariant L0: [C03:inv@inlined] (forall k string :: (k in state.addedDict) ==> k == bom.NodeList.RootElements[0] || (exists i int, j int :: 0 <= i && i < len(bom.NodeList.Edges) && bom.NodeList.Edges[i].Type == 5 && 0 <= j && j < len(bom.NodeList.Edges[i].To) && bom.NodeList.Edges[i].To[j] == k))
+//@   invariant L1: [C03:inv@inlined] (forall k string :: (k in state.addedDict) ==> k == bom.NodeList.RootElements[0] || (exists i int, j int :: 0 <= i && i < len(bom.NodeList.Edges) && bom.NodeList.Edges[i].Type == 5 && 0 <= j && j < len(bom.NodeList.Edges[i].To) && bom.NodeList.Edges[i].To[j] == k))
+//@   invariant L2: [C03:inv@inlined] (forall k string :: (k in state.addedDict) ==> k == bom.NodeList.RootElements[0] || (exists i int, j int :: 0 <= i && i < len(bom.NodeList.Edges) && bom.NodeList.Edges[i].Type == 5 && 0 <= j && j < len(bom.NodeList.Edges[i].To) && bom.NodeList.Edges[i].To[j] == k))
 
 //@ func serializerCDXState.components
 //@   inline
